@@ -259,6 +259,8 @@ def layout_cases():
                         stmts.append(('WQ2', n))  # dc.w [n]?,[2]?
                         stmts.append(('RW', n))
                     stmts.append(('RB', n))
+                if cpu == '68000':
+                    stmts += [('RW0', 0), ('RL0', 0)]       # DS.x 0: no reservation, the address is brought to a multiple of the operand size
                 for st in stmts:
                     for follow in ('B', 'W'):
                         yield {'k': 'layout', 'cpu': cpu, 'padding': padding, 'start': start, 'stmt': list(st), 'follow': follow}
@@ -320,6 +322,10 @@ def ev_layout(case):
         align()
         lines.append('\tds.w %d' % n)
         pc += 2 * n
+    elif k in ('RW0', 'RL0'):
+        w = 2 if k == 'RW0' else 4
+        lines.append('\tds.%s 0' % ('w' if w == 2 else 'l'))
+        pc = (pc + w - 1) // w * w
     elif k == 'RB':
         lines.append('\t%s %d' % ('ds.b' if cpu == '68000' else 'bss', n))
         pc += n
